@@ -37,6 +37,8 @@ def gen_scenario(rng, big=False):
     nrw = rng.choice([1, 1, 1, 2])
     nthr = rng.randint(2, 8)
     lines = ["SEED %d" % rng.randint(1, 10**9), "NES %d" % nes, "WATCHDOG 10"]
+    if nes >= 2 and rng.random() < 0.3:
+        lines.insert(2, "SHARED 1")   # the secondary streams serve one shared pool: blocked ULTs resume on other streams
     for i in range(nrw):
         lines.append("RWLOCK %d" % i)
     style = rng.choice(["mixed", "mixed", "readers_then_writer", "writer_then_all", "writers"])
